@@ -53,6 +53,10 @@ struct TFut {
     polls_to_complete: u64,
     /// Non-atomic state: concurrent polls are data races for Miri/TSan.
     plain: u64,
+    /// Sequential harness: the slot always holds the waker of the last poll.
+    /// Concurrent harness: only the first poll publishes its waker (a mutex
+    /// taken in every poll would order successive polls).
+    store_waker_every_poll: bool,
 }
 impl Future for TFut {
     type Output = Out;
@@ -72,7 +76,9 @@ impl Future for TFut {
         st.last_poll_begin.store(rec::stamp(), Relaxed);
         let n = st.polls.fetch_add(1, Relaxed) + 1;
         st.seen_published.fetch_max(st.published.load(Relaxed), Relaxed);
-        *st.waker_slot.lock().unwrap() = Some(cx.waker().clone());
+        if n == 1 || self.store_waker_every_poll {
+            *st.waker_slot.lock().unwrap() = Some(cx.waker().clone());
+        }
         let r = if n >= self.polls_to_complete {
             st.completed.store(true, Relaxed);
             Poll::Ready(Out(st.clone()))
@@ -106,6 +112,41 @@ fn queued(tag: u64) -> usize {
 
 static NEXT_TAG: AtomicU64 = AtomicU64::new(1);
 
+/// Hand-over slots of the concurrent harness: one per task (at most one
+/// runnable of a task exists at a time). A mutex-protected run queue polled by
+/// every runner thread would order the end of one poll (the runner's next
+/// lock) before the beginning of the next poll on another thread and so hide a
+/// missing happens-before edge of the task implementation; a slot written with
+/// `Release` by the scheduling thread and emptied with an `Acquire`-only RMW
+/// orders the *waker* before the next runner and nothing else, as the
+/// executors' own queues do.
+const NSLOTS: usize = 64;
+static LF_SLOTS: [std::sync::atomic::AtomicPtr<VRunnable>; NSLOTS] = [const { std::sync::atomic::AtomicPtr::new(std::ptr::null_mut()) }; NSLOTS];
+static LF_DOUBLE: AtomicU64 = AtomicU64::new(0);
+
+fn schedule_lf(r: VRunnable, tag: u64) {
+    let p = Box::into_raw(Box::new(r));
+    let old = LF_SLOTS[tag as usize % NSLOTS].swap(p, std::sync::atomic::Ordering::Release);
+    if !old.is_null() {
+        // A second runnable of the same task while one is still pending.
+        LF_DOUBLE.fetch_add(1, Relaxed);
+        // Safety: the pointer came from Box::into_raw above and was removed from the slot by the swap.
+        schedule(*unsafe { Box::from_raw(old) }, tag);
+    }
+}
+fn pop_lf(tag: u64) -> Option<VRunnable> {
+    let p = LF_SLOTS[tag as usize % NSLOTS].swap(std::ptr::null_mut(), std::sync::atomic::Ordering::Acquire);
+    if p.is_null() {
+        pop_runnable(tag)
+    } else {
+        // Safety: see schedule_lf; the swap made this thread the only owner.
+        Some(*unsafe { Box::from_raw(p) })
+    }
+}
+fn queued_lf(tag: u64) -> usize {
+    (!LF_SLOTS[tag as usize % NSLOTS].load(Relaxed).is_null()) as usize + queued(tag)
+}
+
 // ------------------------------------------------------------------ sequential
 
 #[derive(Clone, Copy, Debug, PartialEq)]
@@ -133,7 +174,7 @@ enum Phase {
 fn run_seq(ops: &[Op], polls_to_complete: u64, with_promise: bool) -> Result<(u64, u64), String> {
     let st = Arc::new(TState::default());
     let tag = NEXT_TAG.fetch_add(1, Relaxed);
-    let fut = TFut { st: st.clone(), polls_to_complete, plain: 0 };
+    let fut = TFut { st: st.clone(), polls_to_complete, plain: 0, store_waker_every_poll: true };
     let (mut promise, first, mut token): (Option<VPromise<Out>>, VRunnable, Option<VCancelToken>) = if with_promise {
         let (p, r, c) = spawn(fut, schedule, tag);
         (Some(p), r, Some(c))
@@ -490,12 +531,12 @@ fn conc_case(seed: u64) -> (Vec<(String, String)>, u64, u64) {
         let st = Arc::new(TState::default());
         let tag = NEXT_TAG.fetch_add(1, Relaxed);
         let ptc = if rng.chance(1, 3) { rng.range(2, 6) } else { u64::MAX };
-        let fut = TFut { st: st.clone(), polls_to_complete: ptc, plain: 0 };
+        let fut = TFut { st: st.clone(), polls_to_complete: ptc, plain: 0, store_waker_every_poll: false };
         let (p, r, c) = if with_promise {
-            let (p, r, c) = spawn(fut, schedule, tag);
+            let (p, r, c) = spawn(fut, schedule_lf, tag);
             (Some(p), r, c)
         } else {
-            let (r, c) = spawn_and_forget(fut, schedule, tag);
+            let (r, c) = spawn_and_forget(fut, schedule_lf, tag);
             (None, r, c)
         };
         // First poll on this thread so that the future publishes a waker.
@@ -518,7 +559,7 @@ fn conc_case(seed: u64) -> (Vec<(String, String)>, u64, u64) {
             loop {
                 let mut any = false;
                 for t in tags.iter().rev() {
-                    if let Some(r) = pop_runnable(*t) {
+                    if let Some(r) = pop_lf(*t) {
                         r.run();
                         runs += 1;
                         any = true;
@@ -546,7 +587,7 @@ fn conc_case(seed: u64) -> (Vec<(String, String)>, u64, u64) {
             loop {
                 let mut any = false;
                 for t in &tags {
-                    if let Some(r) = pop_runnable(*t) {
+                    if let Some(r) = pop_lf(*t) {
                         r.run();
                         runs += 1;
                         any = true;
@@ -570,12 +611,21 @@ fn conc_case(seed: u64) -> (Vec<(String, String)>, u64, u64) {
     for wi in 0..nwakers {
         let sts: Vec<Arc<TState>> = tasks.iter().map(|t| t.0.clone()).collect();
         let mut rng = Rng::new(h2(seed, wi as u64 + 7));
+        // Half of the waker threads work with clones taken once, before they
+        // start: fetching the waker from the slot the future fills during each
+        // poll would synchronise the waker thread with that poll (the slot's
+        // mutex) and thereby order successive polls through the harness
+        // itself, hiding a missing edge of the task implementation.
+        let own: Option<Vec<Option<Waker>>> = if wi % 2 == 0 { Some(sts.iter().map(|s| s.waker_slot.lock().unwrap().clone()).collect()) } else { None };
         whs.push(std::thread::spawn(move || {
             // (task index, stamp of the wake call, published value)
             let mut calls: Vec<(usize, u64, u64)> = Vec::new();
             for k in 0..wakes_per {
                 let ti = rng.usize(sts.len());
-                let w = sts[ti].waker_slot.lock().unwrap().clone();
+                let w = match &own {
+                    Some(v) => v[ti].clone(),
+                    None => sts[ti].waker_slot.lock().unwrap().clone(),
+                };
                 if let Some(w) = w {
                     let val = (wi as u64 + 1) * 1_000_000 + k + 1;
                     sts[ti].published.fetch_max(val, Relaxed);
@@ -639,13 +689,13 @@ fn conc_case(seed: u64) -> (Vec<(String, String)>, u64, u64) {
             let last_begin = st.last_poll_begin.load(SeqCst);
             for (wti, s, _) in wake_calls.iter().filter(|c| c.0 == ti) {
                 if *s > last_begin {
-                    viol.push(("C13/lost-wake-up".into(), format!("task {}: wake called at stamp {} but the last poll began at {} and the task is still pending with no runnable queued ({} queued)", wti, s, last_begin, queued(t.1))));
+                    viol.push(("C13/lost-wake-up".into(), format!("task {}: wake called at stamp {} but the last poll began at {} and the task is still pending with no runnable queued ({} queued)", wti, s, last_begin, queued_lf(t.1))));
                     break;
                 }
             }
             // The value published before the last wake must be visible to the last poll.
             let maxv = wake_calls.iter().filter(|c| c.0 == ti).map(|c| c.2).max().unwrap_or(0);
-            if maxv > 0 && st.seen_published.load(Relaxed) < maxv && queued(t.1) == 0 {
+            if maxv > 0 && st.seen_published.load(Relaxed) < maxv && queued_lf(t.1) == 0 {
                 // Only meaningful when a single waker exists (values of different
                 // wakers are unordered).
                 if nwakers == 1 {
@@ -661,7 +711,7 @@ fn conc_case(seed: u64) -> (Vec<(String, String)>, u64, u64) {
     for (st, tag) in &sts {
         let w = st.waker_slot.lock().unwrap().take();
         drop(w);
-        while let Some(r) = pop_runnable(*tag) {
+        while let Some(r) = pop_lf(*tag) {
             drop(r);
         }
         let w = st.waker_slot.lock().unwrap().take();
@@ -675,6 +725,10 @@ fn conc_case(seed: u64) -> (Vec<(String, String)>, u64, u64) {
         if st.out_dropped.load(SeqCst) != produced {
             viol.push((if st.out_dropped.load(SeqCst) < produced { "C13/output-leaked".into() } else { "C13/output-dropped-twice".into() }, format!("task {}: output produced {} times, dropped {} times", ti, produced, st.out_dropped.load(SeqCst))));
         }
+    }
+    let doubles = LF_DOUBLE.swap(0, Relaxed);
+    if doubles > 0 {
+        viol.push(("C13/two-runnables-of-one-task".into(), format!("a runnable was scheduled {} time(s) while another runnable of the same task was still waiting to be run", doubles)));
     }
     (viol, runs, wake_calls.len() as u64)
 }
